@@ -122,6 +122,20 @@ Fixpoint dict_set {A} (k : Z) (v : A) (l : list (Z * A)) : list (Z * A) :=
   end.
 Definition rel_dict (t : gtxn) : list (Z * string) := fold_left (fun d '(k, v) => dict_set k v d) (g_rel t) [].
 
+(* The configuration FILE lists relative_indexes as entries {other_txn_id, offset}.  GroupConfigTransaction.from_yaml reads
+   them into a dict keyed by other_txn_id (a later entry for the same id replaces the offset IN PLACE) and
+   init_tealer_from_config then walks that dict.  yaml_rel gives the (offset, id) pairs in the order of that dict; yaml_txn
+   applies it to a transaction whose g_rel is the listing of the file (the request format of the correspondence). *)
+Fixpoint sdict_put (k : string) (v : Z) (l : list (string * Z)) : list (string * Z) :=
+  match l with
+  | [] => [(k, v)]
+  | (k', v') :: t => if k' =? k then (k', v) :: t else (k', v') :: sdict_put k v t
+  end.
+Definition yaml_dict (l : list (Z * string)) : list (string * Z) := fold_left (fun d '(off, id) => sdict_put id off d) l [].
+Definition yaml_rel (l : list (Z * string)) : list (Z * string) := map (fun '(id, off) => (off, id)) (yaml_dict l).
+Definition yaml_txn (t : gtxn) : gtxn :=
+  mkTxn (g_id t) (g_type t) (g_has_logic_sig t) (g_logic_sig t) (g_application t) (g_abs t) (yaml_rel (g_rel t)).
+
 (* group_relative_indexes[txn] = { other : offset | other.relative_indexes[offset] = txn }, in the order the
    code fills it (transactions in order, offsets in dict order; a later entry for the same other overwrites) *)
 Definition relative_accessors (group : list gtxn) (t : gtxn) : list (string * Z) :=
